@@ -180,7 +180,8 @@ fn shared_component_histories(r: &mut Report) {
     let word_lists: Vec<Vec<&str>> = vec![vec!["sha.ta", "ta.ša", "ka"], vec!["ˈpã", "pã", "sha ˈsha"], vec!["qa", "xa.sha", "ˈpã"]];
     let intos: Vec<Vec<&str>> = vec![vec![], vec!["sh > ʃ"], vec!["sh > s", "š > ʃ"], vec!["q > k"]];
     let froms: Vec<Vec<&str>> = vec![vec![], vec!["ʃ > sh"], vec!["V:[+str] => +@{acute}"], vec!["a > A", "$ > *"]];
-    let rule_lists: Vec<Vec<&str>> = vec![vec!["a > e"], vec!["ʃ > s", "a > o / _#"]];
+    // the last four hold the same failing line at different places of the list (an apply-time error and a syntax error): the error names its own place
+    let rule_lists: Vec<Vec<&str>> = vec![vec!["a > e"], vec!["ʃ > s", "a > o / _#"], vec!["a > [αvoice]"], vec!["ʃ > s", "a > [αvoice]"], vec!["a = b", "ʃ > s"], vec!["ʃ > s", "a > e", "a = b"]];
     let mut calls: Vec<(usize, usize, usize, usize)> = vec![];
     for w in 0..word_lists.len() { for i in 0..intos.len() { for f in 0..froms.len() { for g in 0..rule_lists.len() { calls.push((w, i, f, g)); } } } }
     let sv = |v: &Vec<&str>| -> Vec<String> { v.iter().map(|s| s.to_string()).collect() };
